@@ -338,11 +338,46 @@ func (en *Engine) execInvoke(st *State, f *Frame, x *ssa.Call, recv Value, m *ty
 	return nil
 }
 
+// initMemTouch registers a region reachable only through package variables as initialiser memory.
+func (en *Engine) initMemTouch(r *Region) {
+	if en.initMem == nil {
+		en.initMem = map[*Region]Cell{}
+	}
+	if _, ok := en.initMem[r]; !ok {
+		en.initMem[r] = nil
+	}
+}
+
 func (en *Engine) hashState(st *State, h HashV) *Term {
-	return st.mem[h.Cell].(*Term)
+	c := st.mem[h.Cell]
+	if c == nil {
+		// a hash object created by a package initialiser (shared state): its contents are whatever
+		// earlier calls left there
+		if ic, ok := en.initMem[h.Cell]; ok && ic != nil {
+			c = ic
+		} else {
+			c = FreshVar("hash.state", SBytes)
+		}
+		st.mem[h.Cell] = c
+	}
+	t, ok := c.(*Term)
+	if !ok {
+		fail("hash state of unexpected shape %T", c)
+	}
+	return t
 }
 
 func (en *Engine) hashMethod(st *State, f *Frame, x *ssa.Call, h HashV, name string, args []Value, pos string) []*State {
+	if name == "Write" || name == "Reset" {
+		// the hash object is memory like any other: writing to one that existed before the call
+		// (a package-level hash object) must be allowed by the modifies clause
+		if h.Cell != nil {
+			if _, fromInit := en.initMem[h.Cell]; fromInit || st.mem[h.Cell] == nil {
+				en.initMemTouch(h.Cell)
+				en.checkWrite(st, h.Cell, nil, nil, nil, pos)
+			}
+		}
+	}
 	switch name {
 	case "Write":
 		b := en.bytesTerm(st, st.mem, args[0]).(*Term)
